@@ -53,6 +53,7 @@ fn main() {
         ("corr", "C16") => c16::corr(seed, n),
         ("search", "C08") => c08::search(seed, n),
         ("search", "C09") => c09::search(seed, n),
+        ("corr", "C09") => c09::corr(seed, n),
         ("search", "C10") => c10::search(seed, n),
         ("search", "C15") => c15::search(seed, n),
         ("search", "C19") => c19::search(seed, n),
